@@ -15,3 +15,5 @@ pub mod verif;
 pub mod verif_http;
 #[cfg(feature = "verif-hooks")]
 pub mod verif_update;
+#[cfg(feature = "verif-hooks")]
+pub mod verif_c12;
